@@ -1198,6 +1198,7 @@ type exCall struct {
 	Element   json.RawMessage            `json:"element,omitempty"`
 	Entry     string                     `json:"entry,omitempty"`      // with_root_typed with_root_generic base_path
 	EmptyBase bool                       `json:"empty_base,omitempty"` // the options carry no location (the root is the pseudo root)
+	InProcess bool                       `json:"in_process,omitempty"` // never handed to a worker process (histories: the calls must share the process)
 }
 
 type exOutcome struct {
@@ -1558,7 +1559,7 @@ func exGuard(f func()) (timeout bool, pan string) {
 }
 
 func exRun(c *exCall) *exOutcome {
-	if exIsolated(c) {
+	if exIsolated(c) && !c.InProcess {
 		return exWorkerRun(c)
 	}
 	var o *exOutcome
